@@ -56,7 +56,13 @@ func runInChildren(t *testing.T, layer string, n int, perChildTimeout time.Durat
 	from := 0
 	for from < n {
 		cmd := exec.Command(os.Args[0], "-test.run", "^"+t.Name()+"$", "-test.timeout=0")
-		cmd.Env = append(os.Environ(), "VERIF_CHILD="+layer, "VERIF_CHILD_FROM="+strconv.Itoa(from))
+		restarts := 0
+		for _, r := range results {
+			if strings.HasPrefix(r.Info, "RESTART") {
+				restarts++
+			}
+		}
+		cmd.Env = append(os.Environ(), "VERIF_CHILD="+layer, "VERIF_CHILD_FROM="+strconv.Itoa(from), "VERIF_CHILD_RESTARTS="+strconv.Itoa(restarts))
 		var out bytes.Buffer
 		cmd.Stdout = &out
 		cmd.Stderr = &out
